@@ -116,6 +116,13 @@ T = {
             'two search paths of which one\'s spelling extends the other\'s (lib and lib_extra), orphan in the longer one',
             'C15 quick: C15:orphan-kept',
             'MISSED at first (sibling roots were pkg / my-dir); caught after the root lists {pkg, pkg_extra} in both orders were added'),
+ 'C17-m1': ('C17', 'parse_unittest takes the testcase name as the last dotted part of the id instead of slicing off the class name',
+            'a test whose own name contains a dot (table-driven classes with setattr-ed methods test_parse_1.0, test_parse_2.0)',
+            'C17 quick: C17:wrong-identity|test, C17:pass-missing',
+            'caught at once (name pool has dotted names); patch.diff is rebased onto fix 9b95e30 (same function), patch.orig.diff is the agent\'s patch against fae7978'),
+ 'C17-m2': ('C17', 'TestSuiteInfo.tests counts distinct test objects instead of recorded testcases',
+            '--repeat N with --xml, or a test with two outcomes (body failure + cleanup error)',
+            'C17 quick: C17:count', 'caught at once'),
 }
 
 
